@@ -1,6 +1,8 @@
 package main
 
 import (
+	"go/types"
+
 	"golang.org/x/tools/go/ssa"
 )
 
@@ -152,4 +154,48 @@ func (w *World) absorbedResult(c *ssa.Call, i int) ssa.Value {
 		val = v
 	}
 	return val
+}
+
+// sigKey: receiver type and signature of a function, without its name.
+func (w *World) sigKey(fn *ssa.Function) string {
+	q := func(p *types.Package) string {
+		if p.Path() == modulePath {
+			return ""
+		}
+		return p.Name()
+	}
+	recv := ""
+	if r := fn.Signature.Recv(); r != nil {
+		recv = types.TypeString(r.Type(), q) + "."
+	}
+	return recv + types.TypeString(fn.Signature, q)
+}
+
+// resolveRenames: a function of the confirmed tree that no longer exists under
+// its name, while exactly one function that did not exist then has the very
+// same receiver and signature, has been renamed: the rules keep addressing it
+// by the name they know (w.name answers with the old name).
+func (w *World) resolveRenames() {
+	present := map[string]bool{}
+	for _, fn := range w.Funcs {
+		present[w.rawName(fn)] = true
+	}
+	w.renamed = map[*ssa.Function]string{}
+	for old, sig := range baselineSigs {
+		if present[old] {
+			continue
+		}
+		var cand []*ssa.Function
+		for _, fn := range w.Funcs {
+			if fn.Parent() != nil || baselineFuncs[w.rawName(fn)] {
+				continue
+			}
+			if w.sigKey(fn) == sig {
+				cand = append(cand, fn)
+			}
+		}
+		if len(cand) == 1 {
+			w.renamed[cand[0]] = old
+		}
+	}
 }
